@@ -1,6 +1,8 @@
 import IsoMdl.Lemmas.Issuance
 import IsoMdl.Lemmas.Cbor
 import IsoMdl.Spec.Issuance
+import IsoMdl.Lemmas.CborEq
+import IsoMdl.Model.ResponseFacts
 /-
 C09 — Issued mdocs are internally consistent and verifiable (issuance model part).
 `Generated.digestIdNew` is re-extracted from src/definitions/mso.rs on every run; `toItems`,
@@ -93,6 +95,120 @@ theorem C09_refusals (sizes : List Nat) (ns de : Option (List Nat)) :
       apply List.all_eq_false.mpr
       exact ⟨x, hx, by simp [hd]⟩
     simp [prepareAccepts, this]
+
+section IssuedPassesReader
+open IsoMdl.ResponseFacts
+
+/-- IssuerSignedItemBytes as issued -/
+def wireItem (it : Item) : Cbor := tag24 (enc it.toCbor)
+
+/-- the valueDigests entry the issuer computes for an item under hash `h` -/
+def digestEntry (h : Bytes → Bytes) (it : Item) : Cbor × Cbor :=
+  (ofInt it.digestId, .bytes (digestOfItemBytes h (enc it.toCbor)))
+
+theorem find_key_of_nodup : ∀ (l : List (Cbor × Cbor)) (k v : Cbor), (l.map (·.1)).Nodup → (k, v) ∈ l →
+    l.find? (fun e => e.1 == k) = some (k, v)
+  | [], _, _, _, h => by cases h
+  | (k', v') :: rest, k, v, hnd, hm => by
+    simp only [List.map_cons, List.nodup_cons] at hnd
+    simp only [List.find?_cons]
+    rcases List.mem_cons.mp hm with h | h
+    · have hk : k' = k := (Prod.mk.inj h).1.symm
+      have hv : v' = v := (Prod.mk.inj h).2.symm
+      have : (k' == k) = true := (Cbor.beq_iff k' k).mpr hk
+      simp [this, hk, hv]
+    · have hne : (k' == k) = false := by
+        cases hb : (k' == k) with
+        | false => rfl
+        | true =>
+          have := (Cbor.beq_iff k' k).mp hb
+          subst this
+          exact absurd (List.mem_map.mpr ⟨(k', v), h, rfl⟩) hnd.1
+      simp only [hne]
+      exact find_key_of_nodup rest k v hnd.2 h
+
+theorem fget_item_digestID (it : Item) : fget it.toCbor "digestID" = some (ofInt it.digestId) := by
+  simp [fget, Item.toCbor, Issuance.tx, asciiBytes]
+
+theorem ofInt_int (i : Int) : (∃ n, ofInt i = .uint n) ∨ (∃ n, ofInt i = .nint n) := by
+  unfold ofInt; split
+  · exact Or.inl ⟨_, rfl⟩
+  · exact Or.inr ⟨_, rfl⟩
+
+/-- WHAT IS ISSUED IS WHAT THE READER ACCEPTS (issuance model against the reader's wire model): a document
+whose namespaces carry the items as issued (tag-24 of the item's encoding), with an MSO whose
+valueDigests entry for each namespace has pairwise different keys and contains, for every item, the
+digest the issuer computes (hash of the encoding of the tag-24 item) under the item's digestID -
+decoys and the order of the entries do not matter -, passes the reader's digest comparison
+(`ResponseFacts.digestsMatch`, the fact C04's theorems start from).  Items must be encodable and
+readable back (`wf`, and text that is UTF-8: every value a `ciborium::Value` holds is). -/
+theorem C09_issued_passes_reader_digest_check (doc mso is vd : Cbor) (nsl : List (Bytes × List Item))
+    (his : fget doc "issuerSigned" = some is)
+    (hns : fget is "nameSpaces" = some (.map (nsl.map fun e => (Cbor.text e.1, Cbor.array (e.2.map wireItem)))))
+    (hvd : fget mso "valueDigests" = some vd)
+    (hent : ∀ e ∈ nsl, ∃ entries, mget vd (.text e.1) = some (.map entries) ∧ (entries.map (·.1)).Nodup ∧
+      ∀ it ∈ e.2, digestEntry (hashWith ((fget mso "digestAlgorithm").getD (.simple 22))) it ∈ entries)
+    (hok : ∀ e ∈ nsl, ∀ it ∈ e.2, wf it.toCbor ∧ textOk it.toCbor = true) :
+    digestsMatch doc mso = true := by
+  unfold digestsMatch
+  simp only [his, hns, List.all_eq_true]
+  intro x hx
+  obtain ⟨e, he, rfl⟩ := List.mem_map.mp hx
+  obtain ⟨entries, hme, hnd, hin⟩ := hent e he
+  simp only [hvd, Option.bind_some, hme, List.all_eq_true]
+  intro w hw
+  obtain ⟨it, hit, rfl⟩ := List.mem_map.mp hw
+  obtain ⟨hwf, hto⟩ := hok e he it hit
+  have hdec : decodeValue (enc it.toCbor) = some it.toCbor := by
+    unfold decodeValue
+    have := Cbor.decode_enc_append it.toCbor [] hwf
+    rw [List.append_nil] at this
+    rw [this]; simp [hto]
+  have hfind := find_key_of_nodup entries _ _ hnd (hin it hit)
+  simp only [wireItem, tag24, hdec, fget_item_digestID]
+  rcases ofInt_int it.digestId with ⟨n, hn⟩ | ⟨n, hn⟩
+  · simp only [hn] at hfind ⊢
+    simp [mget, hfind, digestOfItemBytes, tag24]
+  · simp only [hn] at hfind ⊢
+    simp [mget, hfind, digestOfItemBytes, tag24]
+
+/-- non-vacuity of the hypotheses: a one-item document and the MSO the issuer would compute for it -/
+def exItem : Item := ⟨5, [1, 2], [97], .uint 7⟩
+def exMso : Cbor := .map [(ResponseFacts.tx "digestAlgorithm", ResponseFacts.tx "SHA-256"),
+  (ResponseFacts.tx "valueDigests", .map [(.text [110], .map [(.uint 9, .bytes []), digestEntry Sha2.sha256 exItem])])]
+def exDoc : Cbor := .map [(ResponseFacts.tx "issuerSigned", .map [(ResponseFacts.tx "nameSpaces", .map [(.text [110], .array [wireItem exItem])])])]
+
+theorem exMso_alg : (fget exMso "digestAlgorithm").getD (.simple 22) = ResponseFacts.tx "SHA-256" := rfl
+theorem ex_hash : hashWith (ResponseFacts.tx "SHA-256") = Sha2.sha256 := by
+  funext b
+  have h1 : (ResponseFacts.tx "SHA-256" == ResponseFacts.tx "SHA-384") = false := by decide +kernel
+  have h2 : (ResponseFacts.tx "SHA-256" == ResponseFacts.tx "SHA-512") = false := by decide +kernel
+  simp [hashWith, h1, h2]
+
+example : digestsMatch exDoc exMso = true := by
+  apply C09_issued_passes_reader_digest_check exDoc exMso
+    (.map [(ResponseFacts.tx "nameSpaces", .map [(.text [110], .array [wireItem exItem])])])
+    (.map [(.text [110], .map [(.uint 9, .bytes []), digestEntry Sha2.sha256 exItem])]) [([110], [exItem])]
+  · rfl
+  · rfl
+  · rfl
+  · intro e he
+    simp only [List.mem_singleton] at he
+    subst he
+    refine ⟨[(.uint 9, .bytes []), digestEntry Sha2.sha256 exItem], rfl, by simp [digestEntry, exItem, ofInt], ?_⟩
+    intro it hit
+    simp only [List.mem_singleton] at hit
+    subst hit
+    rw [exMso_alg, ex_hash]
+    simp
+  · intro e he it hit
+    simp only [List.mem_singleton] at he
+    subst he
+    simp only [List.mem_singleton] at hit
+    subst hit
+    refine ⟨by simp [Item.toCbor, exItem, wf, wfPairs, Issuance.tx, ofInt, asciiBytes], by decide +kernel⟩
+
+end IssuedPassesReader
 
 /-- non-vacuity: a concrete tape with a repeated draw and a negative draw. -/
 example : (genId [5] [5, -5, -7, 9]) = some (7, [9]) := by decide
